@@ -4,6 +4,9 @@
 import json, os, subprocess, sys, glob, time
 only = set(sys.argv[1:])
 rows = []
+# the seeds are applied to a scratch worktree of /repo's HEAD (VERIF_REPO), never to /repo itself
+WT = "/tmp/seedrun"
+subprocess.run("git -C /repo worktree remove --force %s 2>/dev/null; git -C /repo worktree add -q --detach %s HEAD" % (WT, WT), shell=True)
 for d in sorted(glob.glob("/verif/seeded/*-*")):
     meta_p = d + "/meta.json"
     if not os.path.exists(meta_p):
@@ -13,17 +16,15 @@ for d in sorted(glob.glob("/verif/seeded/*-*")):
     pid = meta["property"]
     if only and key not in only and pid not in only:
         continue
-    st = subprocess.run("git -C /repo status --porcelain --untracked-files=no", shell=True, stdout=subprocess.PIPE).stdout.decode().strip()
-    if st:
-        print("refusing: /repo has local modifications:\n" + st); sys.exit(2)
-    rc = subprocess.run("git -C /repo apply %s/patch.diff" % d, shell=True).returncode
+    subprocess.run("git -C %s checkout -q -- ." % WT, shell=True)
+    rc = subprocess.run("git -C %s apply %s/patch.diff" % (WT, d), shell=True).returncode
     if rc != 0:
         meta["check_result"] = {"error": "patch does not apply to /repo HEAD"}
         json.dump(meta, open(meta_p, "w"), indent=1); continue
     t0 = time.time()
-    p = subprocess.run("timeout 1800 ./check %s --tier quick" % pid, shell=True, cwd="/verif", stdout=subprocess.PIPE, stderr=subprocess.DEVNULL)
+    p = subprocess.run("VERIF_REPO=%s timeout 2400 ./check %s --tier quick" % (WT, pid), shell=True, cwd="/verif", stdout=subprocess.PIPE, stderr=subprocess.DEVNULL)
     out = p.stdout.decode(errors="replace")
-    subprocess.run("git -C /repo checkout -- .", shell=True)
+    subprocess.run("git -C %s checkout -q -- ." % WT, shell=True)
     vio = [l for l in out.splitlines() if l.startswith("VIOLATION")]
     labels = [l.strip() for l in out.splitlines() if l.strip().startswith("unit=")]
     meta["check_result"] = {"cmd": "git -C /repo apply patch.diff && ./check %s --tier quick && git -C /repo checkout -- ." % pid,
@@ -33,4 +34,5 @@ for d in sorted(glob.glob("/verif/seeded/*-*")):
     rows.append((key, meta["check_result"]["caught"], meta["check_result"]["labels"][:2]))
     print(key, "CAUGHT" if vio else "missed", meta["check_result"]["labels"][:2], flush=True)
 # the evidence files were rewritten by runs on mutated trees: they must be regenerated on the clean tree afterwards
+subprocess.run("git -C /repo worktree remove --force %s" % WT, shell=True)
 print("NOTE: re-run the quick checks on the clean tree to regenerate evidence files")
